@@ -36,7 +36,7 @@ from tangermeme.deep_lift_shap import deep_lift_shap, hypothetical_attributions
 from bounded.C04 import (ACT_CLASSES, REF_KINDS, gen_spec, build, make_X, make_refs, nn)
 
 SCOPE = {
-    'quick': 'seeded random sequential float64 nets from the C04 generator without max-pooling (depth 1-4 weight layers: Conv1d stride/dilation/padding, Linear, AvgPool1d, Flatten/Unflatten/Transpose, 16 element-wise activations), alphabet 2-5, length 6-14, 1-3 examples x 1-4 references (tensor one-hot/zeros/uniform/real; generated dinucleotide_shuffle / shuffle), every target, batch sizes 1..n*S+2: 450 nets for clauses M/A/H, 150 affine nets for clause L (incl. bias replacement), 100 direct calls of hypothetical_attributions; band 0<|delta_in|<1e-4 and kink-ambiguous cases excluded',
+    'quick': 'seeded random sequential float64 nets from the C04 generator without max-pooling (depth 1-4 weight layers: Conv1d stride/dilation/padding, Linear, AvgPool1d, Flatten/Unflatten/Transpose, 16 element-wise activations), alphabet 2-5, length 6-14, 1-3 examples x 1-4 references (tensor one-hot/zeros/uniform/real; generated dinucleotide_shuffle / shuffle), every target, batch sizes 1..n*S+2: 1000 nets for clauses M/A/H, 300 affine nets for clause L (incl. bias replacement), 100 direct calls of hypothetical_attributions; band 0<|delta_in|<1e-4 and kink-ambiguous cases excluded',
     'thorough': 'same, up to 15000 nets (time budget), 1500 affine nets, 1000 direct calls',
 }
 
@@ -262,7 +262,7 @@ def run(rep):
             rep.violation(what, case, finding='hypothetical-projection')
         rep.case(('hypo', k), section='hypothetical_attributions', sample=case if k < 1 else None)
     # clause L
-    for k in range(1500 if thorough else 150):
+    for k in range(1500 if thorough else 300):
         if rep.out_of_time():
             break
         case = _new_case(rng, 'affine', 1 + k % 4, acts='none')
@@ -276,7 +276,7 @@ def run(rep):
         rep.case(('affine', k), section='affine', sample={'spec': case['spec'], 'refs': case['refs']} if k < 1 else None)
     # clauses M, A, H
     n_excl = n_part = 0
-    n_main = 15000 if thorough else 450
+    n_main = 15000 if thorough else 1000
     for k in range(n_main):
         if rep.out_of_time():
             rep.note('rescale section cut at %d of %d (time budget)' % (k, n_main))
